@@ -290,7 +290,39 @@ def check_superposition_and_params(ctx: Ctx, data):
                      "coulomb_potential differs from the coefficient-weighted sum of the single-centre functions",
                      {"points": P_.tolist(), "centers_s": cs.tolist(), "coeffs_s": fs.tolist(), "alphas_s": as_.tolist(),
                       "centers_p": cp.tolist(), "coeffs_p": fp.tolist(), "alphas_p": ap.tolist(), "normalized": norm})
+    # centres far from the coordinate origin with evaluation points very close to a centre (tight exponents): the distances
+    # must be those of the differences, not of an expanded |c|^2 - 2 c.p + |p|^2
+    for it, shift in enumerate(([40.0, 35.0, 50.0], [0.0, 0.0, 2.1], [-300.0, 10.0, 0.5])):
+        cs = np.array([shift, np.add(shift, [1.4, 0.0, 0.0])])
+        fs, as_ = np.array([1.0, 0.7]), np.array([4.0e4, 9.0e2])
+        P_ = np.array([np.add(cs[0], [1e-3, 0, 0]), np.add(cs[0], [0, 3e-5, 1e-5]), np.add(cs[1], [1e-2, 1e-2, 0]), np.add(cs[0], [0.3, 0.2, 0.1])])
+        got = GC.coulomb_potential(P_, cs, fs, as_, normalized=True)
+        exp = np.zeros(len(P_))
+        for c, a, ce in zip(fs, as_, cs):
+            d = np.array([float(mp.sqrt(sum((mp.mpf(float(pp[k])) - mp.mpf(float(ce[k]))) ** 2 for k in range(3)))) for pp in P_])
+            exp += c * np.array([float(mp.erf(mp.sqrt(a) * mp.mpf(dd)) / mp.mpf(dd)) for dd in d])
+        ctx.case(("superposition-far", it))
+        if not np.allclose(got, exp, rtol=1e-11, atol=0):
+            i = int(np.argmax(np.abs(got - exp) / np.abs(exp)))
+            ctx.fail("corr_superposition", f"superposition-far:{shift}", float(got[i]),
+                     f"coulomb_potential with centres near {shift} at a point {P_[i].tolist()} close to a centre: {got[i]!r}, exact sum of the s-type potentials {exp[i]!r}",
+                     {"points": P_.tolist(), "centers_s": cs.tolist(), "coeffs_s": fs.tolist(), "alphas_s": as_.tolist(), "expected": exp.tolist()})
     from grid.utils import num2sym
+    GC._ATOMIC_GAUSS_PARAMS_CACHE = None
+    # the table returns equal values on every call, whatever the caller did with previously returned arrays
+    for sym in list(data)[:6]:
+        c0, a0 = GC.load_atomic_gaussian_params(sym)
+        c0 /= 3.0
+        a0 *= 1.44
+        a0[::-1].sort()
+        for el in (sym, sym.lower(), [k for k, v in num2sym.items() if v == sym][0]):
+            c1, a1 = GC.load_atomic_gaussian_params(el)
+            ctx.case(("params-reload", str(el)))
+            if not (np.array_equal(c1, np.asarray(data[sym]["coeffs_s"], float)) and np.array_equal(a1, np.asarray(data[sym]["alphas_s"], float))):
+                ctx.fail("corr_params", f"load_atomic_gaussian_params({el!r}) after editing earlier results in place", float(a1[0]),
+                         f"load_atomic_gaussian_params({el!r}) no longer returns the shipped values after the arrays returned by an earlier call were edited in place",
+                         {"reproduce": f"c,a = load_atomic_gaussian_params({sym!r}); c /= 3; a *= 1.44; load_atomic_gaussian_params({el!r})"})
+                break
     GC._ATOMIC_GAUSS_PARAMS_CACHE = None
     for sym, d in data.items():
         for el in (sym, sym.lower(), [k for k, v in num2sym.items() if v == sym][0]):
